@@ -1,21 +1,33 @@
 (* Specification side of C10: lexical scope resolution, written without any
-   renaming or version arithmetic.
+   renaming or version arithmetic and without the data structures of the pass.
 
    A declaration occurrence is identified by its name and its index among the
    declarations of that name in visit order (parameters first, counting from
-   0): "the k-th declaration of x".  The resolver keeps the textbook scoped
-   symbol table (a stack of blocks, innermost first) and, per name, the number
-   of declarations seen so far.  It maps every variable occurrence to the
-   declaration it denotes -- innermost enclosing block first, parameters
-   outermost, a declaration visible from its own position on and not yet in
-   its own dimension expressions -- and lists the declarations that redeclare
-   a name visible at that point, with the declaration they shadow. *)
+   0): "the k-th declaration of x".
+
+   The rule is the one of the property text -- "each use refers to the
+   innermost enclosing declaration of that name that precedes it (block
+   scoping, parameters outermost)" -- in the usual form of a static
+   environment: the list of the declarations visible at a program point,
+   innermost (latest) first.  A declaration extends the environment for the
+   statements that FOLLOW it in the same scope; it is not visible in its own
+   dimension expressions.  The environment at the end of a scope is thrown
+   away: what a block, the body of a loop or a branch of a conditional
+   declares is not visible after it (and a branch never sees what its sibling
+   branch declared).  Only the per-name counters, which give declarations
+   their identity, run on.
+
+   Nothing here knows how the implementation scopes a loop body or a branch
+   that is not a block.  In Circom such a body cannot declare anything (a
+   declaration is only derivable inside `{ }` and in the header of a `for`,
+   which the parser turns into a block); [branch_closed] states that shape and
+   is the domain of the theorems that compare the pass with this resolver.
+   Outside it the pass and the rule differ (C10_unbraced_declaration_leaks). *)
 From Coq Require Import List NArith Arith Bool.
 Require Import Model.Base Model.Ir Model.UniqueVars.
 Import ListNotations.
 
 Definition entry := (name * (nat * loc))%type.        (* name, index k, location *)
-Record sstate := { sstack : list (list entry); scount : list (name * nat) }.
 
 Fixpoint find_name {V} (n : name) (b : list (name * V)) : option V :=
   match b with
@@ -23,34 +35,32 @@ Fixpoint find_name {V} (n : name) (b : list (name * V)) : option V :=
   | (m, v) :: r => if ident_eqb n m then Some v else find_name n r
   end.
 
-(* innermost block first *)
-Fixpoint lookup (n : name) (stk : list (list entry)) : option (nat * loc) :=
-  match stk with
-  | [] => None
-  | b :: r => match find_name n b with Some d => Some d | None => lookup n r end
-  end.
-
 Definition count (n : name) (c : list (name * nat)) : nat :=
   match find_name n c with Some k => k | None => 0 end.
 
-Definition push (st : sstate) : sstate := {| sstack := [] :: sstack st; scount := scount st |}.
-Definition pop (st : sstate) : sstate := {| sstack := tl (sstack st); scount := scount st |}.
-Definition declare (n : name) (l : loc) (st : sstate) : sstate :=
-  let k := count n (scount st) in
-  {| sstack := match sstack st with b :: r => ((n, (k, l)) :: b) :: r | [] => [[(n, (k, l))]] end;
-     scount := (n, S k) :: scount st |}.
+(* the declarations visible at a program point (innermost first) and, per name,
+   the number of declarations met so far *)
+Record scope := { visible : list entry; seen : list (name * nat) }.
+
+Definition bind (n : name) (l : loc) (sc : scope) : scope :=
+  let k := count n (seen sc) in
+  {| visible := (n, (k, l)) :: visible sc; seen := (n, S k) :: seen sc |}.
+
+(* the end of a scope entered at [outer]: its declarations are forgotten *)
+Definition leave (outer inner : scope) : scope :=
+  {| visible := visible outer; seen := seen inner |}.
 
 (* an occurrence with the declaration index it denotes (None: not declared) *)
 Definition rocc := (okind * name * option nat)%type.
 (* (name, (k, loc) of the redeclaration, (k, loc) of the shadowed declaration) *)
 Definition shadow := (name * (nat * loc) * (nat * loc))%type.
 
-Definition use_occ (k : okind) (st : sstate) (n : name) : rocc :=
-  (k, n, option_map fst (lookup n (sstack st))).
+Definition use_occ (k : okind) (sc : scope) (n : name) : rocc :=
+  (k, n, option_map fst (find_name n (visible sc))).
 
 Section ResolveList.
-  Context (f : ustmt -> sstate -> list rocc * list shadow * sstate).
-  Fixpoint resolve_list (ss : list ustmt) (st : sstate) : list rocc * list shadow * sstate :=
+  Context {S : Type} (f : ustmt -> S -> list rocc * list shadow * S).
+  Fixpoint resolve_list (ss : list ustmt) (st : S) : list rocc * list shadow * S :=
     match ss with
     | [] => ([], [], st)
     | s :: r =>
@@ -60,36 +70,68 @@ Section ResolveList.
     end.
 End ResolveList.
 
-Fixpoint resolve (s : ustmt) (st : sstate) : list rocc * list shadow * sstate :=
+Definition scoped (outer : scope) (r : list rocc * list shadow * scope) : list rocc * list shadow * scope :=
+  let '(o, sh, inner) := r in (o, sh, leave outer inner).
+
+Fixpoint resolve (s : ustmt) (sc : scope) : list rocc * list shadow * scope :=
   match s with
   | UDecl _ n l dims =>
-    (map (use_occ OUse st) dims ++ [(ODecl, n, Some (count n (scount st)))],
-     match lookup n (sstack st) with
-     | Some prev => [(n, (count n (scount st), l), prev)]
+    (map (use_occ OUse sc) dims ++ [(ODecl, n, Some (count n (seen sc)))],
+     match find_name n (visible sc) with
+     | Some prev => [(n, (count n (seen sc), l), prev)]
      | None => []
      end,
-     declare n l st)
-  | USubst n uses => (use_occ OTarget st n :: map (use_occ OUse st) uses, [], st)
-  | UExpr _ uses => (map (use_occ OUse st) uses, [], st)
-  | UInit ss => resolve_list resolve ss st
-  | UBlock ss => let '(o, sh, st') := resolve_list resolve ss (push st) in (o, sh, pop st')
-  | UWhile c b => let '(o, sh, st') := resolve b st in (map (use_occ OUse st) c ++ o, sh, st')
+     bind n l sc)
+  | USubst n uses => (use_occ OTarget sc n :: map (use_occ OUse sc) uses, [], sc)
+  | UExpr _ uses => (map (use_occ OUse sc) uses, [], sc)
+  | UInit ss => resolve_list resolve ss sc         (* `var a = 1, b = a`: part of the enclosing scope *)
+  | UBlock ss => scoped sc (resolve_list resolve ss sc)
+  | UWhile c b =>
+    let '(o, sh, sc') := scoped sc (resolve b sc) in (map (use_occ OUse sc) c ++ o, sh, sc')
   | UIf c t e =>
-    let '(o1, sh1, st1) := resolve t st in
+    let '(o1, sh1, sc1) := scoped sc (resolve t sc) in
     match e with
-    | None => (map (use_occ OUse st) c ++ o1, sh1, st1)
+    | None => (map (use_occ OUse sc) c ++ o1, sh1, sc1)
     | Some e0 =>
-      let '(o2, sh2, st2) := resolve e0 st1 in
-      (map (use_occ OUse st) c ++ o1 ++ o2, sh1 ++ sh2, st2)
+      let '(o2, sh2, sc2) := scoped sc1 (resolve e0 sc1) in
+      (map (use_occ OUse sc) c ++ o1 ++ o2, sh1 ++ sh2, sc2)
     end
   end.
 
-(* parameters are declared in the outermost block, before the body *)
-Definition initial (params : list name) (ploc : loc) : sstate :=
-  fold_left (fun st p => declare p ploc st) params {| sstack := [[]]; scount := [] |}.
+(* parameters are the outermost declarations, before the body *)
+Definition initial (params : list name) (ploc : loc) : scope :=
+  fold_left (fun sc p => bind p ploc sc) params {| visible := []; seen := [] |}.
 
 Definition resolve_def (params : list name) (ploc : loc) (body : ustmt) : list rocc * list shadow :=
   fst (resolve body (initial params ploc)).
+
+(* ------------------------------------------------------------------ *)
+(* the shape of parsed programs                                        *)
+(* ------------------------------------------------------------------ *)
+
+(* the names a statement declares into the scope that contains it *)
+Fixpoint open_decls (s : ustmt) : list name :=
+  match s with
+  | UBlock _ => []
+  | UInit ss => flat_map open_decls ss
+  | UDecl _ n _ _ => [n]
+  | USubst _ _ | UExpr _ _ => []
+  | UWhile _ b => open_decls b
+  | UIf _ t e => open_decls t ++ match e with Some e0 => open_decls e0 | None => [] end
+  end.
+
+Definition no_open_decl (s : ustmt) : bool := match open_decls s with [] => true | _ => false end.
+
+(* no loop body and no branch declares anything outside a block of its own *)
+Fixpoint branch_closed (s : ustmt) : bool :=
+  match s with
+  | UBlock ss | UInit ss => forallb branch_closed ss
+  | UDecl _ _ _ _ | USubst _ _ | UExpr _ _ => true
+  | UWhile _ b => no_open_decl b && branch_closed b
+  | UIf _ t e =>
+    no_open_decl t && branch_closed t &&
+    match e with Some e0 => no_open_decl e0 && branch_closed e0 | None => true end
+  end.
 
 (* ------------------------------------------------------------------ *)
 (* vocabulary of the theorems                                          *)
